@@ -148,7 +148,7 @@ func RunLedger(property string, tier Tier, profiles []*explore.Profile, require 
 func c01Profiles(tier Tier) []*explore.Profile {
 	p := transferProfile(tier)
 	p.Oracles = []explore.Oracle{&conservationOracle{property: "C01"}}
-	return []*explore.Profile{p, highNonceProfile("high-nonce", tier, p.Oracles, 3)}
+	return []*explore.Profile{p, wideTransfersProfile(tier, p.Oracles), highNonceProfile("high-nonce", tier, p.Oracles, 3)}
 }
 
 func init() { LedgerProfiles["C01"] = c01Profiles }
@@ -159,5 +159,6 @@ func C01(tier Tier) int {
 		"delivered:ESDTTransfer:k1-fungible", "delivered:ESDTNFTTransfer:k1-nft", "delivered:MultiESDTNFTTransfer:k1-fungible",
 		"delivered:MultiESDTNFTTransfer:k1-nft", "delivered:MultiESDTNFTTransfer:k2-mixed",
 		"refund-delivered:ESDTTransfer", "delivery-refused-legitimately",
+		"delivered:MultiESDTNFTTransfer:k256-fungible", "delivered:MultiESDTNFTTransfer:k257-mixed", "delivered:MultiESDTNFTTransfer:k300-nft",
 	})
 }
